@@ -747,6 +747,18 @@ class Analyser:
             return self.call_args_then(st, node, go_abs)
         if fn in ('max', 'min'):
             def go(s, args, kw):
+                if len(args) == 2 and not kw and not (s.obj.get(args[0]) or s.obj.get(args[1])):
+                    # min(a, b) is `b if b < a else a`, max(a, b) is `b if b > a else a` (so a NaN first argument is kept, a NaN second
+                    # argument never chosen): the result IS one of the two values, by cases
+                    a_, b_ = args
+                    op = ast.Lt() if fn == 'min' else ast.Gt()
+                    out = []
+                    for sx in self.assume_rel(s.fork(), b_, op, a_, True):
+                        out.append((sx, b_))
+                    for sx in self.assume_rel(s.fork(), b_, op, a_, False):
+                        out.append((sx, a_))
+                    if out:
+                        return out
                 r = s.iv(args[0])
                 first_nan = r.nan
                 for a in args[1:]:
@@ -1108,6 +1120,16 @@ class Analyser:
                     if eq is None or eq == want:
                         return [s]
                     return []
+                if isinstance(op, (ast.Is, ast.IsNot)) and not oa and not ob:
+                    # `x is <NaN constant>`: true only for a NaN (that very object); false says nothing -- another NaN object is not identical
+                    for (u, v) in ((a, b), (b, a)):
+                        iu = s.iv(u)
+                        if iu.nan and iu.empty:
+                            if truth == isinstance(op, ast.Is):
+                                if not s.iv(v).nan:
+                                    return []
+                                s.val[v] = I.NAN
+                            return [s]
             return [s]
         if (oa and oa[0] == 'none') or (ob and ob[0] == 'none'):
             # == None / != None
